@@ -142,7 +142,7 @@ class LStripLeft(X.SegmentVC):
         if out.kind != "ok" or o is None:
             return None
         t = self.text.t
-        return z3.And(z3.PrefixOf(o, t), z3.InRe(X.suffix_from(t, z3.Length(o)), X.WS_STAR))
+        return z3.And(z3.PrefixOf(o, t), X.all_ws(X.suffix_from(t, z3.Length(o))))
 
     def p_frame(self, pre, out):
         """every other group (tag text, sign, the groups of the branches that did not match) is handed on untouched"""
